@@ -129,6 +129,17 @@ def gen_prim(rng) -> dict:
             "own": rng.random() < 0.5}
 
 
+def gen_converging_mgr(rng) -> dict:
+    """PassManager over honest, well-behaved in-place passes whose True flag decreases the counter."""
+    ps = []
+    for _ in range(rng.randrange(1, 4)):
+        e = {"k": "dec", "n": rng.choice([1, 2, 3])} if rng.random() < 0.7 else {"k": "nop", "f": False}
+        ps.append({"prim": True, "ip": True, "ch": True, "rq": False, "en": False, "cr": False, "ret": "same", "eff": e, "own": True})
+    if all(p["eff"]["k"] != "dec" for p in ps):
+        ps[0]["eff"] = {"k": "dec", "n": 1}
+    return {"mgr": ps, "steps": rng.choice([10, 12, 20]), "early": True, "converging": True}
+
+
 def gen_pterm(rng, depth: int) -> dict:
     c = rng.random()
     if depth == 0 or c < 0.35:
@@ -254,6 +265,10 @@ def infra_oracle(t: dict, obs: dict) -> list[str]:
     """The identity rule on the observation (property side, independent of the model)."""
     o = obs["outcome"]
     bad = []
+    if t.get("converging"):
+        # C14_manager_converges on the implementation: measure = counter (< steps), every True flag decreases it
+        if o[0] != "ok" or obs["counters"][0] != 0:
+            bad.append("PassManager(early_stop) over measure-decreasing passes stopped before the fixpoint")
     if o[0] == "ok":
         if obs["ip"] and o[1] != 0:
             bad.append("in-place pass term returned a different object")
@@ -575,7 +590,7 @@ def correspondence(ck, scale: int) -> dict:
     # ---- infra
     cases, terms = [], []
     for i in range(500 * scale):
-        t = gen_pterm(rng, rng.choice([0, 1, 2, 2, 3]))
+        t = gen_pterm(rng, rng.choice([0, 1, 2, 2, 3])) if i % 8 else gen_converging_mgr(rng)
         c0 = rng.choice([0, 1, 2, 3, 5, 9])
         obs = run_infra_case(t, c0)
         ck.count()
